@@ -38,12 +38,20 @@
 #include "opentelemetry/sdk/logs/read_write_log_record.h"
 #include "opentelemetry/sdk/logs/simple_log_record_processor.h"
 #include "opentelemetry/sdk/resource/resource.h"
+#include "opentelemetry/sdk/trace/id_generator.h"
+#include "opentelemetry/sdk/trace/processor.h"
+#include "opentelemetry/sdk/trace/samplers/always_off.h"
+#include "opentelemetry/sdk/trace/samplers/always_on.h"
+#include "opentelemetry/sdk/trace/span_data.h"
+#include "opentelemetry/sdk/trace/tracer_provider.h"
 #include "opentelemetry/trace/default_span.h"
 #include "opentelemetry/trace/scope.h"
+#include "opentelemetry/trace/span_startoptions.h"
 
 #include <nlohmann/json.hpp>
 
 #include <algorithm>
+#include <atomic>
 #include <condition_variable>
 #include <fstream>
 #include <functional>
@@ -51,6 +59,7 @@
 #include <mutex>
 #include <random>
 #include <thread>
+#include <unistd.h>
 
 using json = nlohmann::json;
 using namespace c13;
@@ -415,8 +424,27 @@ static trace::SpanId MakeSid(uint8_t lead, int x)
   b[7]         = static_cast<uint8_t>(x);
   return trace::SpanId(b);
 }
-static uint8_t FlagByte(int f) { return f == 0 ? 0x00 : (f == 1 ? 0x01 : 0x03); }
-static int AbsFlag(uint8_t b) { return b == 0x00 ? 0 : (b == 0x01 ? 1 : (b == 0x03 ? 2 : -1)); }
+// abstract trace-flag value 0 is the zero byte; 1..3 are three distinct bytes drawn per behaviour from
+// {01, 02, 03, 80, ff, random} (01 is always among them so that SDK-made spans can take part)
+static uint8_t g_flagtab[4] = {0x00, 0x01, 0x03, 0x80};
+static void InitFlagTable(std::mt19937_64 &rng)
+{
+  std::vector<uint8_t> pool = {0x02, 0x03, 0x80, 0xff, static_cast<uint8_t>(0x04 + rng() % 0xfa)};
+  std::shuffle(pool.begin(), pool.end(), rng);
+  std::vector<uint8_t> t = {0x01, pool[0], pool[1] == pool[0] ? static_cast<uint8_t>(pool[1] ^ 0x40) : pool[1]};
+  std::shuffle(t.begin(), t.end(), rng);
+  g_flagtab[0] = 0x00;
+  for (int i = 0; i < 3; ++i)
+    g_flagtab[i + 1] = t[static_cast<size_t>(i)];
+}
+static uint8_t FlagByte(int f) { return g_flagtab[f & 3]; }
+static int AbsFlag(uint8_t b)
+{
+  for (int f = 0; f < 4; ++f)
+    if (g_flagtab[f] == b)
+      return f;
+  return -1;
+}
 static int AbsId(const uint8_t *b, size_t n)
 {
   bool zero = true;
@@ -532,6 +560,125 @@ private:
   bool hold_;
 };
 
+// ------------------------------------------------------------------ spans made by the SDK tracer
+// The active span of the correlation clause is concretised either as a non-SDK span (DefaultSpan
+// around a hand-built / remote SpanContext with an arbitrary flag byte) or, when the flag byte is
+// one the SDK tracer can produce (00 / 01), as a real SDK span (root span with the ids the table
+// demands: id generator below; AlwaysOn -> 01, AlwaysOff -> 00 and a non-recording span).
+namespace sdktrace = opentelemetry::sdk::trace;
+class FixedIdGenerator final : public sdktrace::IdGenerator
+{
+public:
+  FixedIdGenerator() : sdktrace::IdGenerator(false) {}
+  trace::SpanId GenerateSpanId() noexcept override
+  {
+    std::lock_guard<std::mutex> lk(m_);
+    return sid_;
+  }
+  trace::TraceId GenerateTraceId() noexcept override
+  {
+    std::lock_guard<std::mutex> lk(m_);
+    return tid_;
+  }
+  void next(const trace::TraceId &t, const trace::SpanId &s)
+  {
+    std::lock_guard<std::mutex> lk(m_);
+    tid_ = t;
+    sid_ = s;
+  }
+
+private:
+  std::mutex m_;
+  trace::TraceId tid_;
+  trace::SpanId sid_;
+};
+class NullSpanProcessor final : public sdktrace::SpanProcessor
+{
+public:
+  std::unique_ptr<sdktrace::Recordable> MakeRecordable() noexcept override
+  {
+    return std::unique_ptr<sdktrace::Recordable>(new sdktrace::SpanData());
+  }
+  void OnStart(sdktrace::Recordable &, const trace::SpanContext &) noexcept override {}
+  void OnEnd(std::unique_ptr<sdktrace::Recordable> &&) noexcept override {}
+  bool ForceFlush(std::chrono::microseconds) noexcept override { return true; }
+  bool Shutdown(std::chrono::microseconds) noexcept override { return true; }
+};
+struct SdkTracers
+{
+  FixedIdGenerator *gen_on = nullptr, *gen_off = nullptr;
+  std::unique_ptr<sdktrace::TracerProvider> on, off;
+  nostd::shared_ptr<trace::Tracer> tracer_on, tracer_off;
+  SdkTracers()
+  {
+    gen_on  = new FixedIdGenerator();
+    gen_off = new FixedIdGenerator();
+    on.reset(new sdktrace::TracerProvider(std::unique_ptr<sdktrace::SpanProcessor>(new NullSpanProcessor()),
+                                          sdkres::Resource::Create({}),
+                                          std::unique_ptr<sdktrace::Sampler>(new sdktrace::AlwaysOnSampler()),
+                                          std::unique_ptr<sdktrace::IdGenerator>(gen_on)));
+    off.reset(new sdktrace::TracerProvider(std::unique_ptr<sdktrace::SpanProcessor>(new NullSpanProcessor()),
+                                           sdkres::Resource::Create({}),
+                                           std::unique_ptr<sdktrace::Sampler>(new sdktrace::AlwaysOffSampler()),
+                                           std::unique_ptr<sdktrace::IdGenerator>(gen_off)));
+    tracer_on  = on->GetTracer("c13-on");
+    tracer_off = off->GetTracer("c13-off");
+  }
+  // a ROOT span (whatever is active on the calling thread) with the given ids
+  nostd::shared_ptr<trace::Span> start(bool sampled, const trace::TraceId &t, const trace::SpanId &s)
+  {
+    (sampled ? gen_on : gen_off)->next(t, s);
+    trace::StartSpanOptions o;
+    o.parent = opentelemetry::context::Context{}.SetValue(trace::kIsRootSpanKey, true);
+    return (sampled ? tracer_on : tracer_off)->StartSpan("c13-span", o);
+  }
+};
+
+// A hang of the code under test must not hang the check: C13_WATCHDOG_S (default 30) seconds after
+// arm() without disarm() the callback prints what is known and the process leaves with status 3.
+class Watchdog
+{
+public:
+  std::atomic<long> id{-1}, step{-1};
+  std::function<void()> on_fire;
+  Watchdog()
+  {
+    const char *e = getenv("C13_WATCHDOG_S");
+    seconds_      = e ? atol(e) : 30;
+    std::thread([this] {
+      for (;;)
+      {
+        std::this_thread::sleep_for(std::chrono::milliseconds(100));
+        long d = deadline_.load();
+        if (d != 0 && now() > d)
+        {
+          if (on_fire)
+            on_fire();
+          _exit(3);
+        }
+      }
+    }).detach();
+  }
+  void arm(long i)
+  {
+    id        = i;
+    step      = -1;
+    deadline_ = now() + seconds_ * 1000;
+  }
+  void disarm() { deadline_ = 0; }
+
+private:
+  static long now()
+  {
+    return static_cast<long>(
+        std::chrono::duration_cast<std::chrono::milliseconds>(std::chrono::steady_clock::now().time_since_epoch())
+            .count());
+  }
+  std::atomic<long> deadline_{0};
+  long seconds_;
+};
+static Watchdog *g_wd = nullptr;
+
 // ------------------------------------------------------------------ lock-step worker threads
 class Worker
 {
@@ -587,7 +734,8 @@ struct Replayer
   nostd::shared_ptr<logs::Logger> loggers[4];
   std::map<int, nostd::unique_ptr<logs::LogRecord>> recs;
   std::vector<std::map<int, std::unique_ptr<trace::Scope>>> scopes;  // per thread
-  std::vector<nostd::shared_ptr<trace::Span>> spans;
+  std::vector<nostd::shared_ptr<trace::Span>> spans;  // non-SDK spans, index = abstract span
+  std::unique_ptr<SdkTracers> sdk;
   // record mode: no expectations; every step is logged with what reached the exporters
   bool recording = false;
   std::vector<std::string> events;
@@ -621,6 +769,8 @@ struct Replayer
     tb.keyvariant = static_cast<int>(rng() % 4);
     tb.evvariant  = static_cast<int>(rng() % 3);
     tb.init(nak);
+    InitFlagTable(rng);
+    sdk.reset(new SdkTracers());
     sh.tb  = &tb;
     sh.nak = nak;
     sh.exported.resize(pipe.size());
@@ -681,7 +831,7 @@ struct Replayer
     spans[0] = nostd::shared_ptr<trace::Span>(new trace::DefaultSpan(trace::SpanContext::GetInvalid()));
     for (int s = 1; s < 32; ++s)
       spans[static_cast<size_t>(s)] = nostd::shared_ptr<trace::Span>(new trace::DefaultSpan(trace::SpanContext(
-          MakeTid(0xA0, s), MakeSid(0xA0, s), trace::TraceFlags(FlagByte(s % 2)), false)));
+          MakeTid(0xA0, s), MakeSid(0xA0, s), trace::TraceFlags(FlagByte(s % 4)), (s / 4) % 2 == 1)));
   }
 
   // ---- abstract argument -> concrete caller object.  `primary`: restrict to the primary static types
@@ -735,7 +885,7 @@ struct Replayer
     else if (k == "ctx")
     {
       c.st  = ST_CTX;
-      c.ctx = trace::SpanContext(MakeTid(0xE0, v), MakeSid(0xE0, v), trace::TraceFlags(FlagByte(1 + v % 2)),
+      c.ctx = trace::SpanContext(MakeTid(0xE0, v), MakeSid(0xE0, v), trace::TraceFlags(FlagByte(1 + v % 3)),
                                  rng() % 2 == 0);
     }
     else if (k == "sid")
@@ -857,7 +1007,7 @@ struct Replayer
         else if (o == 1)
           rec->SetSpanId(MakeSid(0xE0, v));
         else
-          rec->SetTraceFlags(trace::TraceFlags(FlagByte(1 + v % 2)));
+          rec->SetTraceFlags(trace::TraceFlags(FlagByte(1 + v % 3)));
       }
     }
     else if (k == "sid")
@@ -1056,10 +1206,16 @@ struct Replayer
         const json &st       = steps[i];
         const std::string op = st.at("op").get<std::string>();
         const int t          = st.at("t").get<int>();
+        if (g_wd)
+          g_wd->step = static_cast<long>(i);
         auto body            = [&] {
           if (op == "ScopeEnter")
           {
-            auto &sp = spans.at(st.at("s").get<size_t>());
+            size_t s     = st.at("s").get<size_t>();
+            auto sp      = spans.at(s);
+            uint8_t byte = FlagByte(static_cast<int>(s % 4));
+            if (s != 0 && (byte == 0x00 || byte == 0x01) && rng() % 2)
+              sp = sdk->start(byte == 0x01, MakeTid(0xA0, static_cast<int>(s)), MakeSid(0xA0, static_cast<int>(s)));
             scopes[static_cast<size_t>(t)][st.at("r").get<int>()].reset(new trace::Scope(sp));
           }
           else if (op == "ScopeExit")
@@ -1163,6 +1319,7 @@ struct Replayer
     for (auto &l : loggers)
       l = nostd::shared_ptr<logs::Logger>();
     provider.reset();  // Shutdown: joins the batch workers
+    sdk.reset();
     if (ok)
     {
       size_t late = 0;
@@ -1183,6 +1340,10 @@ struct Replayer
 
 static int Replay(const char *path)
 {
+  g_wd          = new Watchdog();
+  g_wd->on_fire = [] {
+    std::cout << json{{"beh", g_wd->id.load()}, {"hang", true}, {"step", g_wd->step.load()}}.dump() << std::endl;
+  };
   std::ifstream in(path);
   std::string line;
   while (std::getline(in, line))
@@ -1193,8 +1354,10 @@ static int Replay(const char *path)
     std::cout << json{{"beh", beh.at("id")}, {"start", true}}.dump() << std::endl;
     json out;
     {
+      g_wd->arm(beh.at("id").get<long>());
       Replayer rp(beh);
       rp.run();
+      g_wd->disarm();
       out["beh"]      = beh.at("id");
       out["done"]     = true;
       out["ok"]       = rp.ok;
@@ -1263,7 +1426,7 @@ struct Gen
         break;
       case 7:
         a["k"] = "flags";
-        a["v"] = 1 + pick(2);
+        a["v"] = 1 + pick(3);
         break;
       case 8:
         a["k"]  = "event";
@@ -1415,8 +1578,18 @@ struct Gen
   }
 };
 
+static Replayer *g_current = nullptr;
 static int Run(uint64_t seed, int nexec, int nthreads, int nops, int b)
 {
+  // a call that never returns: print what was logged so far (only the stuck thread writes events,
+  // and it is stuck) and leave with 3
+  g_wd          = new Watchdog();
+  g_wd->on_fire = [] {
+    if (g_current)
+      for (auto &e : g_current->events)
+        std::cout << e << "\n";
+    std::cout << json{{"e", "Hang"}, {"t", 0}, {"step", g_wd->step.load()}}.dump() << std::endl;
+  };
   for (int i = 0; i < nexec; ++i)
   {
     Gen g;
@@ -1425,7 +1598,11 @@ static int Run(uint64_t seed, int nexec, int nthreads, int nops, int b)
     beh["x"] = i;
     Replayer rp(beh);
     rp.recording = true;
+    g_current    = &rp;
+    g_wd->arm(i);
     rp.run();
+    g_wd->disarm();
+    g_current = nullptr;
     for (auto &e : rp.events)
       std::cout << e << "\n";
     if (!rp.ok)  // (ForceFlush returned false, records exported after the end ...): no spec action consumes this
